@@ -554,6 +554,53 @@ theorem forwarding_fields_sent_on_every_attempt (N : Net Addr Prefix) (cfg : Cfg
   · exact ⟨dropNil_sent s1, dropNil_sent s2, fun _ => dropNil_sent s3⟩
   · exact ⟨dropNil_sent s1, dropNil_sent s2, fun h => absurd rfl h⟩
 
+/-! ## the FastCGI transport (php_fastcgi): what the application is told about the client -/
+
+/-- REMOTE_ADDR / REMOTE_PORT are cut out of the socket address — no header is an input -/
+theorem fastcgi_remote_addr_from_connection (N : Net Addr Prefix) (cfg : Cfg Prefix) (c : Conn)
+    (w : List (Bytes × Bytes)) (ops : Ops) (e : FcgiEnv) (h : serveFcgi N cfg c w ops = some e) :
+    e.remoteAddr = (fcgiRemote c.remoteAddr).1 ∧ e.remotePort = (fcgiRemote c.remoteAddr).2 := by
+  unfold serveFcgi at h
+  cases hp : prepareRequest N cfg c (determineTrustedProxy N cfg c (fromWire w)).1 (applyOmit cfg (fromWire w)) with
+  | none => simp [hp] at h
+  | some hdr => simp [hp, fcgiEnvOf] at h; subst h; exact ⟨rfl, rfl⟩
+
+/-- the value reverse_proxy set under a forwarding field is always one the CGI variable can take -/
+theorem fastcgi_candidates_contain_the_field (h : Header) (vs : List Bytes)
+    (hg : hGet h kXFF = some (some vs)) : joinWith commaSpace vs ∈ envCandidates h envXFF := by
+  unfold envCandidates
+  refine List.mem_map.mpr ⟨(kXFF, some vs), ?_, rfl⟩
+  exact List.mem_filter.mpr ⟨hGet_mem h kXFF (some vs) hg, by simp [envXFF]⟩
+
+/-- no other field of the request has the CGI name `name` than the field `key` itself (decidable) -/
+def cgiNameUnique (h : Header) (name key : Bytes) : Bool :=
+  (h.filter (fun e => envName e.1 = name)).map (fun e => e.1) == [key]
+
+/- FULL statement: for an untrusted peer the only value HTTP_X_FORWARDED_FOR can take is the connection's.
+   It FAILS on the tree as it is: `fastcgi_forwarded_variable_full_fails` (Witness.lean) — a client field
+   spelled `X_Forwarded_For` gets the same CGI name and Go's map order decides which one is written last. -/
+
+/-- **partial.** Outside the explicit, decidable exclusion "another field of the prepared request has the
+    same CGI name", the CGI variable of a forwarding field can only take the value reverse_proxy set. -/
+theorem fastcgi_forwarded_variable_partial (h : Header) (vs : List Bytes)
+    (hg : hGet h kXFF = some (some vs)) (hu : cgiNameUnique h envXFF kXFF = true) :
+    envCandidates h envXFF = [joinWith commaSpace vs] := by
+  unfold cgiNameUnique at hu
+  unfold envCandidates
+  have hm : (kXFF, some vs) ∈ h.filter (fun e => envName e.1 = envXFF) :=
+    List.mem_filter.mpr ⟨hGet_mem h kXFF (some vs) hg, by simp [envXFF]⟩
+  generalize h.filter (fun e => envName e.1 = envXFF) = l at hu hm
+  have hl : l.map (fun e => e.1) = [kXFF] := by simpa using hu
+  cases l with
+  | nil => simp at hl
+  | cons e rest =>
+    cases rest with
+    | cons e2 r2 => simp at hl
+    | nil =>
+      have : (kXFF, some vs) = e := by simpa using hm
+      subst this
+      rfl
+
 /-! ## facts regenerated from the source on every run (tools/extract → Gen/Forwarding.lean) -/
 
 /-- `prepareRequest` strips the headers named by `Connection` and the hop-by-hop list BEFORE it calls
@@ -938,6 +985,14 @@ example : wrapAccept toyNetZ exPP b!"tcp" b!"10.0.0.1:443" (some b!"6.6.6.6:7777
 example : ppPeerAddr toyNetZ b!"[fe80::1%eth0]:1" = some b!"fe80::1" ∧ unixOrFd b!"tcp" = false ∧
     witPP.deny.any (fun r => toyNetZ.contains r b!"fe80::1") = true := by decide
 example : parsePolicy b!"Require" = some .require ∧ parsePolicy b!"bogus" = none ∧ ppFallback none = some .ignore := by decide
+-- FastCGI: REMOTE_ADDR of a bracketed, zoned IPv6 socket address; an underscore twin widens what the
+-- variable can take, without one it is exactly the connection's value
+example : fcgiRemote b!"[fe80::1%eth0]:51234" = (b!"fe80::1%eth0", b!"51234") ∧ fcgiRemote b!"/run/x.sock" = (b!"/run/x.sock", []) ∧
+    envName b!"X_forwarded-For" = envXFF := by decide
+example : (serveFcgi toyNet exCfg exUntrusted exHeaders .none).map (fun e => (e.xff, e.xfp, e.xfh)) =
+    some ([b!"fe80::1"], [b!"https"], [b!"example.com"]) := by decide
+example : (serveFcgi toyNet exCfg exUntrusted ((b!"X_Forwarded_Proto", b!"http") :: exHeaders) .none).map (fun e => e.xfp) =
+    some [b!"https", b!"http"] := by decide
 -- elements_are_per_value
 example : elements [b!"a,b", b!"", b!"c"] = [b!"a", b!"b", b!"", b!"c"] := by decide
 -- trimSpace_never_runs_out_of_fuel: NBSP, EM SPACE and ASCII blanks around an address
